@@ -201,6 +201,7 @@ func genTimes() {
 	for h := 0; h <= 25; h++ {
 		for m := 0; m <= 61; m++ {
 			timeCase(fmt.Sprintf("2006-01-02T15:04:05+%02d:%02d", h, m))
+			timeCase(fmt.Sprintf("2006-01-02T15:04:05.5-%02d:%02d", h, m))
 			timeCase(fmt.Sprintf("2006-01-02T%02d:%02d:%02dZ", h, m, m))
 		}
 	}
@@ -279,6 +280,15 @@ func randBlob(r *common.Rand, sp *spec, mt string, backed bool) ocispec.Descript
 	}
 	if r.Chance(1, 3) {
 		d.Annotations = randAnn(r, "", false)
+	}
+	if backed && sp.Target == "file" && r.Chance(1, 2) && !isManifestType(mt) {
+		// a named file of the file store (unique name per digest: the store refuses a second name
+		// for other content, and the same content under two names is restored by the store itself)
+		if d.Annotations == nil {
+			d.Annotations = map[string]string{}
+		}
+		d.Annotations[ocispec.AnnotationTitle] = "blob-" + string(d.Digest)[7:19] + pick(r, ".bin", ".json", "")
+		run.Count("file_named_blob")
 	}
 	if r.Chance(1, 8) {
 		d.URLs = []string{"https://example.com/" + longName(r, 4)}
@@ -396,6 +406,12 @@ func genPacks() {
 	}
 }
 
+// created values of the enumeration: absent, valid, each leniency of time.Parse on its own
+// (one-digit hour; comma; offset hour 24 with a legal minute; offset minute 60 with a legal
+// hour, both signs), malformed.
+var enumCreated = []string{"", "2021-07-01T12:00:00Z", "2021-07-01T12:00:00.25-07:30", "2021-07-01T1:00:00Z", "2021-07-01T12:00:00,5Z",
+	"2021-07-01T12:00:00+24:00", "2021-07-01T12:00:00+22:60", "2021-07-01T12:00:00-00:60", "2021-07-01T12:00:00-24:59", "yesterday"}
+
 // enumPacks: the full product of the option classes the property quantifies over (small scope).
 // quick: memory target, no faults; thorough: every target kind and every fault position.
 func enumPacks() {
@@ -425,7 +441,7 @@ func enumPacks() {
 					for li := 0; li < 3; li++ {
 						for si := 0; si < 2; si++ {
 							for _, at := range []string{"", "application/vnd.example.thing", "not a type", ocispec.MediaTypeImageManifest} {
-								for _, created := range []string{"", "2021-07-01T12:00:00Z", "2021-07-01T1:00:00Z", "yesterday"} {
+								for _, created := range enumCreated {
 									for pi := 0; pi < 3; pi++ {
 										for _, fa := range fails {
 											sp := &spec{Fn: fn, Target: tg, Exists: ex, FailAt: fa, AT: at, Config: cfg, Backed: backing}
@@ -467,6 +483,11 @@ func enumPacks() {
 // ---------------------------------------------------------------- main
 
 func main() {
+	// self-test of the oracle's raw-JSON walker
+	if unsortedAnnotations([]byte(`{"config":{"annotations":{"b":"1","a":"2"}},"annotations":{"a":"1"}}`)) == "" ||
+		unsortedAnnotations([]byte(`{"z":1,"a":{"annotations":{"a":"1","b":"2"}},"layers":[{"annotations":{"":"0","k":"1","k1":"2"}}]}`)) != "" {
+		panic("unsortedAnnotations self-test")
+	}
 	run = common.Start("C19")
 	run.Rule = "distinct pack calls that pushed or succeeded + distinct accepted media-type and timestamp strings"
 	if run.Replay != "" {
